@@ -289,6 +289,14 @@ Definition with_params (o : op) (ps : list param) : op :=
   {| o_method := o_method o; o_path := o_path o; o_params := ps; o_body := o_body o;
      o_body_required := o_body_required o |}.
 
+(* a path item: its path-level parameters and its operations (each with its own operation-level
+   parameters, o_params left empty).  EVERY operation of the item inherits the path-level list *)
+Record path_item := { pi_params : list param; pi_ops : list (op * list param) }.
+Definition item_ops (it : path_item) : list op :=
+  map (fun x => with_params (fst x) (merge_params (pi_params it) (snd x))) (pi_ops it).
+Definition no_op : op :=
+  {| o_method := []; o_path := []; o_params := []; o_body := []; o_body_required := false |}.
+
 (* a finite table for sanitize_method_name (identity outside the table) *)
 Definition mn_of (tbl : list (str * str)) (s : str) : str :=
   match alookup s tbl with Some x => x | None => s end.
